@@ -11,10 +11,24 @@ Local Open Scope R_scope.
 (** the rule of the model, divided by pi: sum over the selected nodes of
     (w_k/pi) (1 - x_k^2) g(x_k); the code multiplies coefficients c_k = sqrt(1-x_k^2) g(x_k)
     by sqrt(1-x_k^2) w_k *)
-Definition ruleR (d : dir) (ep : bool) (grid : list R) (M N : nat) (g : R -> R) : R :=
+Definition ruleRH (halved : list Z) (divisor : nat) (d : dir) (ep : bool) (grid : list R)
+           (g : R -> R) : R :=
   let sel := trim d ep grid in
   Rsum (map (fun xw => snd xw * ((1 - fst xw * fst xw) * g (fst xw)))
-            (combine sel (intWeights ROps d ep (length sel) M N))).
+            (combine sel (intWeightsH ROps halved divisor (length sel)))).
+Definition ruleR (d : dir) (ep : bool) (grid : list R) (M N : nat) (g : R -> R) : R :=
+  ruleRH (int_halved d ep) (wdiv d M N) d ep grid g.
+
+(** a halved entry is harmless when it is the first entry and the first node is kept, or the
+    last entry and the last node is kept (the summand vanishes at the end points) *)
+Definition halved_ok (d : dir) (ep : bool) (halved : list Z) : Prop :=
+  List.Forall (fun z => (z = 0%Z /\ fst (trim_rows d ep) = 0%nat) \/
+                        (z = (-1)%Z /\ snd (trim_rows d ep) = 0%nat)) halved.
+Lemma int_halved_ok d ep : halved_ok d ep (int_halved d ep).
+Proof.
+  unfold halved_ok, int_halved, trim_rows.
+  destruct ep; [|destruct d]; repeat (constructor; [cbn; tauto|]); constructor.
+Qed.
 
 (** weights that equal b wherever the summand does not vanish can be replaced by b *)
 Lemma Rsum_combine_weights (l : list R) (w : nat -> R) (a : nat) (b : R) (t : R -> R) :
@@ -87,61 +101,58 @@ Qed.
 
 Lemma trim_hd_last d ep (grid : list R) :
   (3 <= length grid)%nat ->
-  (trim_rows d ep = (0, 0)%nat -> hd 0 (trim d ep grid) = hd 0 grid /\ last (trim d ep grid) 0 = last grid 0) /\
-  (trim_rows d ep = (0, 1)%nat -> hd 0 (trim d ep grid) = hd 0 grid).
+  (fst (trim_rows d ep) = 0%nat -> hd 0 (trim d ep grid) = hd 0 grid) /\
+  (snd (trim_rows d ep) = 0%nat -> last (trim d ep grid) 0 = last grid 0).
 Proof.
   intro H. unfold trim, trim_rows. destruct ep.
-  - split; intros _; [split|]; reflexivity.
-  - destruct d; split; intro E; try discriminate E.
+  - split; intros _; reflexivity.
+  - destruct d; cbn [fst snd]; split; intro E; try discriminate E.
     destruct grid as [|a [|b t]]; [cbn in H; lia|cbn in H; lia|reflexivity].
 Qed.
 
 (** every weight that multiplies a non-vanishing summand is 1/n *)
-Lemma weights_base d ep (grid : list R) M N g k x :
+Lemma weights_base halved divisor d ep (grid : list R) g k x :
+  halved_ok d ep halved ->
   hd 0 grid = -1 -> last grid 0 = 1 -> (3 <= length grid)%nat ->
   nth_error (trim d ep grid) k = Some x -> tfun g x <> 0 ->
   fold_right (fun z w => if (pyidx (length (trim d ep grid)) z =? k)%nat then half ROps w else w)
-             (odiv ROps (o1 ROps) (onat ROps (wdiv d M N))) (int_halved d ep)
-  = / INR (wdiv d M N).
+             (odiv ROps (o1 ROps) (onat ROps divisor)) halved
+  = / INR divisor.
 Proof.
-  intros Hh Hl Hlen Hk Hx. apply tfun_nz in Hx. destruct Hx as [Hx1 Hx2].
-  assert (Hb : odiv ROps (o1 ROps) (onat ROps (wdiv d M N)) = / INR (wdiv d M N))
+  intros Hok Hh Hl Hlen Hk Hx. apply tfun_nz in Hx. destruct Hx as [Hx1 Hx2].
+  assert (Hb : odiv ROps (o1 ROps) (onat ROps divisor) = / INR divisor)
     by (cbn; unfold Rdiv; ring).
-  rewrite Hb.
-  destruct (trim_hd_last d ep grid Hlen) as [T00 T01].
-  unfold int_halved. destruct ep.
-  - (* both end weights halved; the selection is the complete grid *)
-    destruct (T00 eq_refl) as [Th Tl].
-    assert (K0 : k <> 0%nat).
-    { intro E. subst k. apply nth_error_0_hd in Hk. rewrite Th, Hh in Hk. congruence. }
-    assert (K1 : k <> (length (trim d true grid) - 1)%nat).
-    { intro E. subst k. apply nth_error_last in Hk. rewrite Tl, Hl in Hk. congruence. }
-    cbn [fold_right]. unfold pyidx. cbn [Z.ltb Z.compare].
-    replace (Z.to_nat 0) with 0%nat by reflexivity.
-    assert (E1 : (0 =? k)%nat = false) by (apply Nat.eqb_neq; lia).
-    assert (E2 : (Z.to_nat (Z.of_nat (length (trim d true grid)) + -1) =? k)%nat = false)
-      by (apply Nat.eqb_neq; lia).
-    rewrite E1, E2. reflexivity.
-  - destruct d; cbn [fold_right]; try reflexivity.
-    pose proof (T01 eq_refl) as Th.
-    assert (K0 : k <> 0%nat).
-    { intro E. subst k. apply nth_error_0_hd in Hk. rewrite Th, Hh in Hk. congruence. }
-    unfold pyidx. cbn [Z.ltb Z.compare]. replace (Z.to_nat 0) with 0%nat by reflexivity.
-    assert (E1 : (0 =? k)%nat = false) by (apply Nat.eqb_neq; lia).
-    rewrite E1. reflexivity.
+  rewrite Hb. clear Hb.
+  destruct (trim_hd_last d ep grid Hlen) as [Th Tl].
+  assert (Hpos : (1 <= length (trim d ep grid))%nat).
+  { destruct (trim d ep grid); [destruct k; discriminate Hk|cbn; lia]. }
+  induction Hok as [|z halved Hz _ IH]; [reflexivity|].
+  cbn [fold_right]. rewrite IH.
+  assert (E : (pyidx (length (trim d ep grid)) z =? k)%nat = false); [|now rewrite E].
+  apply Nat.eqb_neq. destruct Hz as [[-> F]|[-> B]].
+  - unfold pyidx. cbn [Z.ltb Z.compare]. replace (Z.to_nat 0) with 0%nat by reflexivity.
+    intro E. subst k. apply nth_error_0_hd in Hk. rewrite (Th F), Hh in Hk. congruence.
+  - unfold pyidx. cbn [Z.ltb Z.compare].
+    replace (Z.to_nat (Z.of_nat (length (trim d ep grid)) + -1)) with (length (trim d ep grid) - 1)%nat by lia.
+    intro E. subst k. apply nth_error_last in Hk. rewrite (Tl B), Hl in Hk. congruence.
 Qed.
 
 (** ** the model's rule (any direction, with or without end points, halved or dropped end
     weights) is the uniform-weight rule on the complete grid: the end-point terms vanish *)
+Theorem rule_is_uniform_gen halved divisor d ep grid g :
+  halved_ok d ep halved ->
+  hd 0 grid = -1 -> last grid 0 = 1 -> (3 <= length grid)%nat ->
+  ruleRH halved divisor d ep grid g = / INR divisor * Rsum (map (tfun g) grid).
+Proof.
+  intros Hok Hh Hl Hlen. unfold ruleRH, intWeightsH.
+  rewrite <- (trim_sum d ep grid g Hh Hl) by lia.
+  apply (Rsum_combine_weights (trim d ep grid) _ 0 (/ INR divisor) (tfun g)).
+  intros k x Hk Hx. cbn [Nat.add]. now apply (weights_base halved divisor d ep grid g k x).
+Qed.
 Theorem rule_is_uniform d ep grid M N g :
   hd 0 grid = -1 -> last grid 0 = 1 -> (3 <= length grid)%nat ->
   ruleR d ep grid M N g = / INR (wdiv d M N) * Rsum (map (tfun g) grid).
-Proof.
-  intros Hh Hl Hlen. unfold ruleR, intWeights.
-  rewrite <- (trim_sum d ep grid g Hh Hl) by lia.
-  apply (Rsum_combine_weights (trim d ep grid) _ 0 (/ INR (wdiv d M N)) (tfun g)).
-  intros k x Hk Hx. cbn [Nat.add]. now apply (weights_base d ep grid M N g k x).
-Qed.
+Proof. intros. apply rule_is_uniform_gen; try assumption. apply int_halved_ok. Qed.
 
 (** ** on the Gauss-Lobatto nodes x_k = -cos(k pi/n) *)
 Definition gcl_grid (n : nat) : list R :=
@@ -170,15 +181,16 @@ Qed.
 (** ** integrate is exact: for q with q(-cos t) = sum_j b_j cos(j t), at most 2n-2 terms
     (degree <= 2n-3), pi * rule = int_0^pi sin^2 t q(-cos t) dt
     ( = int_{-1}^{1} sqrt(1-x^2) q(x) dx by x = -cos t; that substitution is not proved) *)
-Theorem integrate_exact_R d ep M N b q :
-  (2 <= wdiv d M N)%nat -> (length b <= 2 * wdiv d M N - 2)%nat ->
+Theorem integrate_exact_gen halved n d ep b q :
+  halved_ok d ep halved ->
+  (2 <= n)%nat -> (length b <= 2 * n - 2)%nat ->
   (forall t, q (- cos t) = trigpoly b t) ->
   is_RInt (fun t => sin t ^ 2 * trigpoly b t) 0 PI
-          (PI * ruleR d ep (gcl_grid (wdiv d M N)) M N q).
+          (PI * ruleRH halved n d ep (gcl_grid n) q).
 Proof.
-  intros Hn Hb Hq. set (n := wdiv d M N) in *.
+  intros Hok Hn Hb Hq.
   destruct (gcl_grid_ends n) as [Hh [Hl Hlen]]; [lia|].
-  rewrite (rule_is_uniform d ep (gcl_grid n) M N q Hh Hl) by lia. fold n.
+  rewrite (rule_is_uniform_gen halved n d ep (gcl_grid n) q Hok Hh Hl) by lia.
   unfold gcl_grid. rewrite map_map, Rsum_seq.
   pose proof (gcl_weighted_exact_plain n b Hn Hb) as H.
   replace (PI * (/ INR n * sum_f_R0 (fun x => tfun q (- cos (INR x * PI / INR n))) n))
@@ -191,3 +203,9 @@ Proof.
       with (sin (INR k * PI * / INR n) ^ 2); [reflexivity|].
     pose proof (sin2_cos2 (INR k * PI * / INR n)) as S2. unfold Rsqr in S2. cbn [pow]. lra.
 Qed.
+Theorem integrate_exact_R d ep M N b q :
+  (2 <= wdiv d M N)%nat -> (length b <= 2 * wdiv d M N - 2)%nat ->
+  (forall t, q (- cos t) = trigpoly b t) ->
+  is_RInt (fun t => sin t ^ 2 * trigpoly b t) 0 PI
+          (PI * ruleR d ep (gcl_grid (wdiv d M N)) M N q).
+Proof. intros. apply integrate_exact_gen; try assumption. apply int_halved_ok. Qed.
